@@ -1,6 +1,574 @@
-//! C24 — not implemented yet.
-use mc_core::Ctx;
+//! C24 — decimal arithmetic is exact or reports overflow.
+//!
+//! Bounded-exhaustive: every ordered pair of the boundary lattice L(T) (DESIGN §4.3) for T in {Decimal,
+//! PreciseDecimal} through checked add / sub / mul / div, every lattice value through neg / abs, plus for
+//! every lattice value `a` the *overflow-frontier partners* (the b for which a∘b lands on / next to MAX or
+//! MIN), the conversions Decimal <-> PreciseDecimal, integers -> both, both -> integers, and the mixed-type
+//! operator impls. Oracle: exact BigInt arithmetic on raw sub-units, truncated toward zero; representable
+//! => Some(exact), else None; never a panic. Raw values are moved in and out as u64 limbs only.
+use crate::numref::*;
+use mc_core::{par_range, Ctx, Level, Local};
+use num_bigint::BigInt;
+use num_traits::{One, Signed, Zero};
+use radix_common::math::*;
+use serde_json::{json, Map, Value};
+use std::collections::BTreeSet;
 
-pub fn run(_ctx: Ctx) -> ! {
-    mc_core::machinery_error("C24: not implemented")
+#[derive(Clone, Copy, PartialEq, Eq, Debug)]
+pub enum Op {
+    Add,
+    Sub,
+    Mul,
+    Div,
+}
+pub const OPS: [Op; 4] = [Op::Add, Op::Sub, Op::Mul, Op::Div];
+
+impl Op {
+    fn name(self) -> &'static str {
+        match self {
+            Op::Add => "add",
+            Op::Sub => "sub",
+            Op::Mul => "mul",
+            Op::Div => "div",
+        }
+    }
+    fn by_name(s: &str) -> Option<Op> {
+        OPS.iter().copied().find(|o| o.name() == s)
+    }
+}
+
+/// The specification: exact result truncated toward zero to the scale; representable => Some, else None.
+fn expect_bin(ty: &Ty, op: Op, a: &BigInt, b: &BigInt) -> (Option<BigInt>, &'static str) {
+    match op {
+        Op::Add => {
+            let r = a + b;
+            if ty.fits(&r) {
+                (Some(r), "add:exact")
+            } else {
+                (None, "add:overflow")
+            }
+        }
+        Op::Sub => {
+            let r = a - b;
+            if ty.fits(&r) {
+                (Some(r), "sub:exact")
+            } else {
+                (None, "sub:overflow")
+            }
+        }
+        Op::Mul => {
+            let (q, exact) = div_trunc(&(a * b), &ty.one);
+            if ty.fits(&q) {
+                (Some(q), if exact { "mul:exact" } else { "mul:truncated" })
+            } else {
+                (None, "mul:overflow")
+            }
+        }
+        Op::Div => {
+            if b.is_zero() {
+                return (None, "div:by-zero");
+            }
+            let (q, exact) = div_trunc(&(a * &ty.one), b);
+            if ty.fits(&q) {
+                (Some(q), if exact { "div:exact" } else { "div:truncated" })
+            } else {
+                (None, "div:overflow")
+            }
+        }
+    }
+}
+
+fn real_bin<T: Fixed>(op: Op, a: T, b: T) -> Result<Option<BigInt>, String> {
+    got_big(mc_core::catch(|| match op {
+        Op::Add => a.c_add(b),
+        Op::Sub => a.c_sub(b),
+        Op::Mul => a.c_mul(b),
+        Op::Div => a.c_div(b),
+    }))
+}
+
+#[allow(clippy::too_many_arguments)]
+fn check_bin<T: Fixed>(ty: &Ty, op: Op, a: &BigInt, b: &BigInt, av: T, bv: T, origin: &str, l: &mut Local) {
+    l.eval();
+    let (exp, class) = expect_bin(ty, op, a, b);
+    l.class(class);
+    let got = real_bin(op, av, bv);
+    if let Some(kind) = verdict(ty, &exp, &got) {
+        report(
+            l,
+            kind,
+            format!("{kind}:{}:{}", T::NAME, op.name()),
+            format!(
+                "{}::checked_{}({}, {}) [raw {} , {}]: exact-or-overflow expects {}, real code returned {}",
+                T::NAME,
+                op.name(),
+                render(a, ty.scale),
+                render(b, ty.scale),
+                a,
+                b,
+                show_big(&exp),
+                show_got(&got)
+            ),
+            json!({"kind": "bin", "type": T::NAME, "op": op.name(), "a": a.to_string(), "b": b.to_string(), "origin": origin}),
+        );
+    }
+}
+
+fn check_unary<T: Fixed>(ty: &Ty, which: &str, a: &BigInt, av: T, l: &mut Local) {
+    l.eval();
+    let r = if which == "neg" { -a } else { a.abs() };
+    let exp = ty.some_if_fits(r);
+    l.class(match (which, exp.is_some()) {
+        ("neg", true) => "neg:exact",
+        ("neg", false) => "neg:overflow",
+        (_, true) => "abs:exact",
+        (_, false) => "abs:overflow",
+    });
+    let got = got_big(mc_core::catch(|| if which == "neg" { av.c_neg() } else { av.c_abs() }));
+    if let Some(kind) = verdict(ty, &exp, &got) {
+        report(
+            l,
+            kind,
+            format!("{kind}:{}:{which}", T::NAME),
+            format!("{}::checked_{which}({}) [raw {a}]: expected {}, real code returned {}", T::NAME, render(a, ty.scale), show_big(&exp), show_got(&got)),
+            json!({"kind": "unary", "type": T::NAME, "op": which, "a": a.to_string()}),
+        );
+    }
+}
+
+/// For a given `a`: the partners b for which a+b, a-b, a*b, a/b land exactly on, one below and one above
+/// the representable range (both ends). Deterministic function of (type, a).
+fn frontier_partners(ty: &Ty, a: &BigInt) -> Vec<BigInt> {
+    let mut out: BTreeSet<BigInt> = BTreeSet::new();
+    let s = &ty.one;
+    for t in [&ty.max, &ty.min] {
+        for d in -1i32..=1 {
+            out.insert(t - a + d); // a + b = t + d
+            out.insert(a - t + d); // a - b = t - d
+        }
+    }
+    if !a.is_zero() {
+        let aa = a.abs();
+        for m in [ty.max.clone(), -&ty.min] {
+            // largest |b| with trunc(|a||b| / S) <= m
+            let b0: BigInt = (&m * s + s - 1) / &aa;
+            for d in -1i32..=1 {
+                let b = &b0 + d;
+                out.insert(-&b);
+                out.insert(b);
+            }
+            // trunc(|a| S / |b|) <= m  <=>  |b| > |a| S / (m + 1)
+            let c0: BigInt = (&aa * s) / (&m + 1);
+            for d in 0i32..=2 {
+                let b = &c0 + d;
+                out.insert(-&b);
+                out.insert(b);
+            }
+        }
+    }
+    out.into_iter().filter(|b| ty.fits(b)).collect()
+}
+
+fn sweep<T: Fixed>(ctx: &Ctx, lat: &Lat<T>) -> (u64, u64) {
+    let n = lat.len();
+    // all ordered pairs, one row per work item
+    par_range(ctx, n as u64, 1, |i, l| {
+        let i = i as usize;
+        for j in 0..n {
+            for op in OPS {
+                check_bin(&lat.ty, op, &lat.big[i], &lat.big[j], lat.val[i], lat.val[j], "lattice-pair", l);
+            }
+        }
+        check_unary(&lat.ty, "neg", &lat.big[i], lat.val[i], l);
+        check_unary(&lat.ty, "abs", &lat.big[i], lat.val[i], l);
+        if i % 101 == 7 {
+            let j = (i * 31 + 5) % n;
+            let (e, _) = expect_bin(&lat.ty, Op::Mul, &lat.big[i], &lat.big[j]);
+            l.sample(|| json!({"type": T::NAME, "op": "mul", "a": render(&lat.big[i], lat.ty.scale), "b": render(&lat.big[j], lat.ty.scale), "expected_raw": show_big(&e)}));
+        }
+    });
+    // overflow frontier
+    let fr = std::sync::atomic::AtomicU64::new(0);
+    par_range(ctx, n as u64, 8, |i, l| {
+        let i = i as usize;
+        let partners = frontier_partners(&lat.ty, &lat.big[i]);
+        fr.fetch_add(partners.len() as u64, std::sync::atomic::Ordering::Relaxed);
+        for b in &partners {
+            let bv: T = from_big(b).expect("filtered to range");
+            for op in OPS {
+                check_bin(&lat.ty, op, &lat.big[i], b, lat.val[i], bv, "overflow-frontier", l);
+                check_bin(&lat.ty, op, b, &lat.big[i], bv, lat.val[i], "overflow-frontier", l);
+            }
+        }
+    });
+    ((n * n) as u64, fr.into_inner())
+}
+
+// ------------------------------------------------------------------------------------------------
+// conversions
+// ------------------------------------------------------------------------------------------------
+
+fn report_conv(l: &mut Local, ty: &Ty, what: &str, tname: &str, input: &str, exp: &Option<BigInt>, got: &Result<Option<BigInt>, String>, case: Value) {
+    if let Some(kind) = verdict(ty, exp, got) {
+        report(l, kind, format!("{kind}:{tname}:{what}"), format!("{what} [{tname}] of {input}: expected {}, real code returned {}", show_big(exp), show_got(got)), case);
+    }
+}
+
+fn conv_between(ld: &Lat<Decimal>, lp: &Lat<PreciseDecimal>, l: &mut Local) {
+    let e18 = pow10(18);
+    for (b, v) in ld.big.iter().zip(ld.val.iter()) {
+        l.eval();
+        let exp = lp.ty.some_if_fits(b * &e18);
+        l.class("widen:exact");
+        let got = got_big(mc_core::catch(|| Some(PreciseDecimal::from(*v))));
+        report_conv(l, &lp.ty, "widen(Decimal->PreciseDecimal)", "Decimal", &b.to_string(), &exp, &got, json!({"kind": "widen", "a": b.to_string()}));
+    }
+    for (b, v) in lp.big.iter().zip(lp.val.iter()) {
+        l.eval();
+        let (q, exact) = div_trunc(b, &e18);
+        let exp = ld.ty.some_if_fits(q);
+        l.class(match (&exp, exact) {
+            (Some(_), true) => "narrow:exact",
+            (Some(_), false) => "narrow:truncated",
+            (None, _) => "narrow:out-of-range",
+        });
+        let got = got_big(mc_core::catch(|| Decimal::try_from(*v).ok()));
+        report_conv(l, &ld.ty, "narrow(try_from PreciseDecimal->Decimal)", "PreciseDecimal", &b.to_string(), &exp, &got, json!({"kind": "narrow", "via": "try_from", "a": b.to_string()}));
+        let got = got_big(mc_core::catch(|| v.checked_truncate(RoundingMode::ToZero)));
+        report_conv(l, &ld.ty, "narrow(checked_truncate ToZero)", "PreciseDecimal", &b.to_string(), &exp, &got, json!({"kind": "narrow", "via": "checked_truncate", "a": b.to_string()}));
+    }
+}
+
+fn prim_into<T, I>(ty: &Ty, iv: I, ib: &BigInt, iname: &str, l: &mut Local)
+where
+    T: Fixed + From<I>,
+    I: Copy,
+{
+    l.eval();
+    let exp = ty.some_if_fits(ib * &ty.one);
+    l.class(if exp.is_some() { "from-int:exact" } else { "from-int:overflow" });
+    let got = got_big(mc_core::catch(|| Some(T::from(iv))));
+    report_conv(l, ty, "from-int", &format!("{}<-{iname}", T::NAME), &ib.to_string(), &exp, &got, json!({"kind": "from-int", "type": T::NAME, "int": iname, "a": ib.to_string()}));
+}
+
+fn prim_back<T, I>(lat: &Lat<T>, imin: &BigInt, imax: &BigInt, iname: &str, l: &mut Local)
+where
+    T: Fixed,
+    I: TryFrom<T>,
+    BigInt: From<I>,
+{
+    for (a, av) in lat.big.iter().zip(lat.val.iter()) {
+        l.eval();
+        let (q, exact) = div_trunc(a, &lat.ty.one);
+        let (exp, class) = if !exact {
+            (None, "to-int:fractional")
+        } else if &q >= imin && &q <= imax {
+            (Some(q), "to-int:exact")
+        } else {
+            (None, "to-int:out-of-range")
+        };
+        l.class(class);
+        let got: Result<Option<BigInt>, String> = mc_core::catch(|| I::try_from(*av).ok().map(BigInt::from));
+        // (the "exact-MIN-rejected" label of `verdict` refers to the fixed-point type and cannot match here)
+        report_conv(l, &lat.ty, "to-int", &format!("{iname}<-{}", T::NAME), &a.to_string(), &exp, &got, json!({"kind": "to-int", "type": T::NAME, "int": iname, "a": a.to_string()}));
+    }
+}
+
+#[allow(clippy::too_many_arguments)]
+fn mixed_case<T: Fixed>(ty: &Ty, op: Op, lhs: &BigInt, rhs: &BigInt, operand_ok: bool, got: Result<Option<BigInt>, String>, what: &str, case: Value, l: &mut Local) {
+    l.eval();
+    if !operand_ok {
+        // the integer operand itself has no representation in T: the statement only asks for no panic
+        l.class("mixed:operand-unrepresentable");
+        if let Err(p) = &got {
+            report(l, "panic", format!("panic:{}:{what}:{}", T::NAME, op.name()), format!("{what} {}: panicked: {p}", op.name()), case);
+        } else if let Ok(Some(_)) = &got {
+            l.info("mixed op with an unrepresentable integer operand returned Some (statement silent)");
+        }
+        return;
+    }
+    let (exp, _) = expect_bin(ty, op, lhs, rhs);
+    l.class(if exp.is_some() { "mixed:some" } else { "mixed:none" });
+    if let Some(kind) = verdict(ty, &exp, &got) {
+        report(
+            l,
+            kind,
+            format!("{kind}:{}:{what}:{}", T::NAME, op.name()),
+            format!("{what} checked_{}: lhs raw {lhs}, rhs raw {rhs}: expected {}, real code returned {}", op.name(), show_big(&exp), show_got(&got)),
+            case,
+        );
+    }
+}
+
+fn prim_mixed<T, I>(core: &Lat<T>, iv: I, ib: &BigInt, iname: &str, l: &mut Local)
+where
+    T: Fixed + CheckedAdd<I, Output = T> + CheckedSub<I, Output = T> + CheckedMul<I, Output = T> + CheckedDiv<I, Output = T>,
+    I: Copy,
+{
+    let rhs = ib * &core.ty.one;
+    let ok = core.ty.fits(&rhs);
+    for (a, av) in core.big.iter().zip(core.val.iter()) {
+        for op in OPS {
+            let got = got_big(mc_core::catch(|| match op {
+                Op::Add => <T as CheckedAdd<I>>::checked_add(*av, iv),
+                Op::Sub => <T as CheckedSub<I>>::checked_sub(*av, iv),
+                Op::Mul => <T as CheckedMul<I>>::checked_mul(*av, iv),
+                Op::Div => <T as CheckedDiv<I>>::checked_div(*av, iv),
+            }));
+            mixed_case::<T>(&core.ty, op, a, &rhs, ok, got, &format!("{} op {iname}", T::NAME), json!({"kind": "mixed-int", "type": T::NAME, "int": iname, "op": op.name(), "a": a.to_string(), "int_value": ib.to_string()}), l);
+        }
+    }
+}
+
+macro_rules! prim_suite {
+    ($ld:expr, $lp:expr, $cd:expr, $cp:expr, $l:expr, $($t:ident),*) => {$(
+        {
+            let iname = stringify!($t);
+            let mut vals: Vec<$t> = vec![<$t>::MIN, <$t>::MIN + 1, (0 as $t).wrapping_sub(1), 0, 1, 2, 10, <$t>::MAX - 1, <$t>::MAX];
+            vals.sort();
+            vals.dedup();
+            let (imin, imax) = (BigInt::from(<$t>::MIN), BigInt::from(<$t>::MAX));
+            for &iv in &vals {
+                let ib = BigInt::from(iv);
+                prim_into::<Decimal, $t>(&$ld.ty, iv, &ib, iname, $l);
+                prim_into::<PreciseDecimal, $t>(&$lp.ty, iv, &ib, iname, $l);
+                prim_mixed::<Decimal, $t>($cd, iv, &ib, iname, $l);
+                prim_mixed::<PreciseDecimal, $t>($cp, iv, &ib, iname, $l);
+            }
+            prim_back::<Decimal, $t>($ld, &imin, &imax, iname, $l);
+            prim_back::<PreciseDecimal, $t>($lp, &imin, &imax, iname, $l);
+        }
+    )*};
+}
+
+/// Interesting integers for the wide integer types: type bounds, limb boundaries, and the largest /
+/// smallest integer *values* of both fixed-point types with their neighbours.
+fn wide_int_candidates(bits: u32, signed: bool) -> Vec<BigInt> {
+    let mut s: BTreeSet<BigInt> = BTreeSet::new();
+    let (lo, hi): (BigInt, BigInt) = if signed { (-pow2(bits - 1), pow2(bits - 1) - 1) } else { (BigInt::zero(), pow2(bits) - 1) };
+    for v in [BigInt::zero(), BigInt::one(), BigInt::from(2), BigInt::from(10), lo.clone(), &lo + 1, hi.clone(), &hi - 1] {
+        s.insert(v);
+    }
+    for k in [63u32, 64, 127, 128, 131, 132, 135, 136, 191, 192, 255, 256] {
+        for d in -1i32..=1 {
+            s.insert(pow2(k) + d);
+            s.insert(-(pow2(k) + d));
+        }
+    }
+    for (b, sc) in [(192u32, 18u32), (256, 36)] {
+        let vmax = (pow2(b - 1) - 1) / pow10(sc); // largest integer value
+        let vmin = -(pow2(b - 1) / pow10(sc)); // smallest integer value
+        for d in -1i32..=1 {
+            s.insert(&vmax + d);
+            s.insert(&vmin + d);
+        }
+    }
+    s.insert(-BigInt::one());
+    s.into_iter().filter(|v| v >= &lo && v <= &hi).collect()
+}
+
+/// Wide integer type -> fixed-point conversion at the candidate values; `mixed` additionally runs the
+/// mixed-type checked operators in both operand orders (they do not exist for I384 / U384).
+macro_rules! wide_suite {
+    ($T:ty, $core:expr, $l:expr, $signed:expr, $mixed:tt, $($t:ident),*) => {$(
+        {
+            let iname = stringify!($t);
+            let n = <$t>::N;
+            let ty: &Ty = &$core.ty;
+            for ib in wide_int_candidates((n * 64) as u32, $signed) {
+                let limbs = if $signed { big_to_limbs(&ib, n) } else { big_to_ulimbs(&ib, n) }.expect("candidate filtered to the int type's range");
+                let mut arr = [0u64; <$t>::N];
+                arr.copy_from_slice(&limbs);
+                let iv = <$t>::from_digits(arr);
+                // the limb transport into the wide integer type must be lossless
+                let back = if $signed { limbs_to_big(&iv.to_digits()) } else { ulimbs_to_big(&iv.to_digits()) };
+                if back != ib {
+                    mc_core::machinery_error("wide integer limb transport is not lossless");
+                }
+                let rhs = &ib * &ty.one;
+                // conversion
+                $l.eval();
+                let exp = ty.some_if_fits(rhs.clone());
+                $l.class(if exp.is_some() { "from-wide-int:exact" } else { "from-wide-int:overflow" });
+                let got = got_big(mc_core::catch(|| <$T>::try_from(iv).ok()));
+                report_conv($l, ty, "from-wide-int", &format!("{}<-{iname}", <$T as Fixed>::NAME), &ib.to_string(), &exp, &got,
+                    json!({"kind": "from-wide-int", "type": <$T as Fixed>::NAME, "int": iname, "a": ib.to_string()}));
+                wide_mixed!($mixed, $T, $t, $core, $l, iv, ib, rhs, ty, iname);
+            }
+        }
+    )*};
+}
+
+macro_rules! wide_mixed {
+    (conv_only, $T:ty, $t:ident, $core:expr, $l:expr, $iv:ident, $ib:ident, $rhs:ident, $ty:ident, $iname:ident) => {
+        let _ = (&$iv, &$ib, &$rhs, &$ty, &$iname);
+    };
+    (mixed, $T:ty, $t:ident, $core:expr, $l:expr, $iv:ident, $ib:ident, $rhs:ident, $ty:ident, $iname:ident) => {
+        let ok = $ty.fits(&$rhs);
+        for (a, av) in $core.big.iter().zip($core.val.iter()) {
+            for op in OPS {
+                let got = got_big(mc_core::catch(|| match op {
+                    Op::Add => <$T as CheckedAdd<$t>>::checked_add(*av, $iv),
+                    Op::Sub => <$T as CheckedSub<$t>>::checked_sub(*av, $iv),
+                    Op::Mul => <$T as CheckedMul<$t>>::checked_mul(*av, $iv),
+                    Op::Div => <$T as CheckedDiv<$t>>::checked_div(*av, $iv),
+                }));
+                mixed_case::<$T>($ty, op, a, &$rhs, ok, got, &format!("{} op {}", <$T as Fixed>::NAME, $iname),
+                    json!({"kind": "mixed-wide", "type": <$T as Fixed>::NAME, "int": $iname, "op": op.name(), "a": a.to_string(), "int_value": $ib.to_string(), "order": "fixed-op-int"}), $l);
+                let got = got_big(mc_core::catch(|| match op {
+                    Op::Add => <$t as CheckedAdd<$T>>::checked_add($iv, *av),
+                    Op::Sub => <$t as CheckedSub<$T>>::checked_sub($iv, *av),
+                    Op::Mul => <$t as CheckedMul<$T>>::checked_mul($iv, *av),
+                    Op::Div => <$t as CheckedDiv<$T>>::checked_div($iv, *av),
+                }));
+                mixed_case::<$T>($ty, op, &$rhs, a, ok, got, &format!("{} op {}", $iname, <$T as Fixed>::NAME),
+                    json!({"kind": "mixed-wide", "type": <$T as Fixed>::NAME, "int": $iname, "op": op.name(), "a": a.to_string(), "int_value": $ib.to_string(), "order": "int-op-fixed"}), $l);
+            }
+        }
+    };
+}
+
+/// PreciseDecimal op Decimal and Decimal op PreciseDecimal (both yield PreciseDecimal).
+fn mixed_pd_d(ctx: &Ctx, lp: &Lat<PreciseDecimal>, ld: &Lat<Decimal>) -> u64 {
+    let e18 = pow10(18);
+    let widened: Vec<BigInt> = ld.big.iter().map(|b| b * &e18).collect();
+    par_range(ctx, lp.len() as u64, 1, |i, l| {
+        let i = i as usize;
+        let (p, pv) = (&lp.big[i], lp.val[i]);
+        for j in 0..ld.len() {
+            let (dw, dv) = (&widened[j], ld.val[j]);
+            for op in OPS {
+                let got = got_big(mc_core::catch(|| match op {
+                    Op::Add => <PreciseDecimal as CheckedAdd<Decimal>>::checked_add(pv, dv),
+                    Op::Sub => <PreciseDecimal as CheckedSub<Decimal>>::checked_sub(pv, dv),
+                    Op::Mul => <PreciseDecimal as CheckedMul<Decimal>>::checked_mul(pv, dv),
+                    Op::Div => <PreciseDecimal as CheckedDiv<Decimal>>::checked_div(pv, dv),
+                }));
+                mixed_case::<PreciseDecimal>(&lp.ty, op, p, dw, true, got, "PreciseDecimal op Decimal", json!({"kind": "mixed-pd-d", "op": op.name(), "p": p.to_string(), "d": ld.big[j].to_string(), "order": "pd-op-d"}), l);
+                let got = got_big(mc_core::catch(|| match op {
+                    Op::Add => <Decimal as CheckedAdd<PreciseDecimal>>::checked_add(dv, pv),
+                    Op::Sub => <Decimal as CheckedSub<PreciseDecimal>>::checked_sub(dv, pv),
+                    Op::Mul => <Decimal as CheckedMul<PreciseDecimal>>::checked_mul(dv, pv),
+                    Op::Div => <Decimal as CheckedDiv<PreciseDecimal>>::checked_div(dv, pv),
+                }));
+                mixed_case::<PreciseDecimal>(&lp.ty, op, dw, p, true, got, "Decimal op PreciseDecimal", json!({"kind": "mixed-pd-d", "op": op.name(), "p": p.to_string(), "d": ld.big[j].to_string(), "order": "d-op-pd"}), l);
+            }
+        }
+    });
+    (lp.len() * ld.len()) as u64
+}
+
+// ------------------------------------------------------------------------------------------------
+
+fn replay(ctx: Ctx, case: Value) -> ! {
+    let kind = case.get("kind").and_then(|k| k.as_str()).unwrap_or("");
+    let tname = case.get("type").and_then(|k| k.as_str()).unwrap_or("Decimal");
+    let mut l = Local::new();
+    fn bin<T: Fixed>(case: &Value, l: &mut Local) {
+        let ty = Ty::of::<T>();
+        let (a, b) = (parse_big(case, "a"), parse_big(case, "b"));
+        let op = Op::by_name(case.get("op").and_then(|k| k.as_str()).unwrap_or("")).unwrap_or_else(|| mc_core::machinery_error("replay: unknown op"));
+        let (av, bv): (T, T) = (from_big(&a).unwrap_or_else(|| mc_core::machinery_error("replay: a out of range")), from_big(&b).unwrap_or_else(|| mc_core::machinery_error("replay: b out of range")));
+        let (exp, _) = expect_bin(&ty, op, &a, &b);
+        println!("REPLAY {}::checked_{}({}, {}): expected {}, real code returned {}", T::NAME, op.name(), render(&a, ty.scale), render(&b, ty.scale), show_big(&exp), show_got(&real_bin(op, av, bv)));
+        check_bin(&ty, op, &a, &b, av, bv, "replay", l);
+    }
+    fn unary<T: Fixed>(case: &Value, l: &mut Local) {
+        let ty = Ty::of::<T>();
+        let a = parse_big(case, "a");
+        let av: T = from_big(&a).unwrap_or_else(|| mc_core::machinery_error("replay: a out of range"));
+        let which = if case.get("op").and_then(|k| k.as_str()) == Some("neg") { "neg" } else { "abs" };
+        check_unary(&ty, which, &a, av, l);
+    }
+    match (kind, tname) {
+        ("bin", "Decimal") => bin::<Decimal>(&case, &mut l),
+        ("bin", _) => bin::<PreciseDecimal>(&case, &mut l),
+        ("unary", "Decimal") => unary::<Decimal>(&case, &mut l),
+        ("unary", _) => unary::<PreciseDecimal>(&case, &mut l),
+        ("narrow", _) | ("widen", _) => {
+            let a = parse_big(&case, "a");
+            if kind == "narrow" {
+                let lp = Lat::<PreciseDecimal>::from_values(Ty::of::<PreciseDecimal>(), vec![a]);
+                let ld = Lat::<Decimal>::from_values(Ty::of::<Decimal>(), vec![]);
+                conv_between(&ld, &lp, &mut l);
+            } else {
+                let ld = Lat::<Decimal>::from_values(Ty::of::<Decimal>(), vec![a]);
+                let lp = Lat::<PreciseDecimal>::from_values(Ty::of::<PreciseDecimal>(), vec![]);
+                conv_between(&ld, &lp, &mut l);
+            }
+        }
+        _ => mc_core::machinery_error("replay of this case kind is not supported; rerun the tier (the enumeration is deterministic)"),
+    }
+    println!("REPLAY verdict: {}", if l.violations.is_empty() { "agrees with the specification" } else { "VIOLATES the specification" });
+    ctx.merge(l);
+    ctx.finish(Level::Exploration, "replay", 0, false, Map::new(), &[])
+}
+
+pub fn run(ctx: Ctx) -> ! {
+    if let Some(case) = ctx.read_replay_case() {
+        replay(ctx, case);
+    }
+    let quick = ctx.quick();
+    // main lattices (thorough: with the denser families), and the plain §4.3 lattices for the cross sweeps
+    let ld = Lat::<Decimal>::build(quick, !quick);
+    let lp = Lat::<PreciseDecimal>::build(quick, !quick);
+    let bd = Lat::<Decimal>::build(quick, false);
+    let bp = Lat::<PreciseDecimal>::build(quick, false);
+    let cd = Lat::<Decimal>::build(true, false);
+    let cp = Lat::<PreciseDecimal>::build(true, false);
+
+    let (pairs_d, frontier_d) = sweep(&ctx, &ld);
+    let t_d = ctx.elapsed_s();
+    let (pairs_p, frontier_p) = sweep(&ctx, &lp);
+    let t_p = ctx.elapsed_s();
+
+    // conversions and integer mixed operators: one work item per integer type
+    type Task<'a> = Box<dyn Fn(&mut Local) + Send + Sync + 'a>;
+    let mut tasks: Vec<Task> = vec![Box::new(|l: &mut Local| conv_between(&ld, &lp, l))];
+    macro_rules! prim_tasks {
+        ($($t:ident),*) => {$( tasks.push(Box::new(|l: &mut Local| { prim_suite!(&ld, &lp, &cd, &cp, l, $t); })); )*};
+    }
+    macro_rules! wide_tasks {
+        ($T:ty, $core:expr, $signed:expr, $mixed:tt, $($t:ident),*) => {$( tasks.push(Box::new(|l: &mut Local| { wide_suite!($T, $core, l, $signed, $mixed, $t); })); )*};
+    }
+    prim_tasks!(i8, i16, i32, i64, i128, isize, u8, u16, u32, u64, u128, usize);
+    wide_tasks!(Decimal, &cd, true, mixed, I192, I256, I320, I448, I512);
+    wide_tasks!(Decimal, &cd, false, mixed, U192, U256, U320, U448, U512);
+    wide_tasks!(PreciseDecimal, &cp, true, mixed, I192, I256, I320, I448, I512);
+    wide_tasks!(PreciseDecimal, &cp, false, mixed, U192, U256, U320, U448, U512);
+    wide_tasks!(PreciseDecimal, &cp, true, conv_only, I384);
+    wide_tasks!(PreciseDecimal, &cp, false, conv_only, U384);
+    mc_core::par_for(&ctx, &tasks, |t, l| t(l));
+    drop(tasks);
+    let cross = mixed_pd_d(&ctx, &bp, &bd);
+
+    let classes = ctx.classes();
+    let nontrivial: u64 = classes
+        .iter()
+        .filter(|(k, _)| [":truncated", ":overflow", ":by-zero", ":out-of-range", ":fractional", "mixed:none"].iter().any(|s| k.ends_with(s)))
+        .map(|(_, v)| *v)
+        .sum();
+    let mut cov = Map::new();
+    cov.insert("lattice_decimal".into(), json!(ld.len()));
+    cov.insert("lattice_precise_decimal".into(), json!(lp.len()));
+    cov.insert("ordered_pairs_decimal".into(), json!(pairs_d));
+    cov.insert("ordered_pairs_precise_decimal".into(), json!(pairs_p));
+    cov.insert("overflow_frontier_partners_decimal".into(), json!(frontier_d));
+    cov.insert("overflow_frontier_partners_precise_decimal".into(), json!(frontier_p));
+    cov.insert("cross_type_pairs".into(), json!(cross));
+    cov.insert("core_lattice_for_integer_mixed_ops".into(), json!([cd.len(), cp.len()]));
+    cov.insert("seconds_decimal_sweep".into(), json!(t_d));
+    cov.insert("seconds_precise_decimal_sweep".into(), json!(t_p - t_d));
+    ctx.finish(
+        Level::Exploration,
+        "a case = one (type, operation, operand tuple) evaluated on the real code and on exact BigInt arithmetic; operand tuples = all ordered pairs of the boundary lattice L(T) x {add,sub,mul,div}, all of L(T) x {neg,abs}, per lattice value the overflow-frontier partners (both orders), all lattice values through every conversion, integer boundary values x core lattice through the mixed operators, L(PreciseDecimal) x L(Decimal) through the cross-type operators; non-trivial = cases whose exact result needs truncation, overflows, divides by zero, is fractional or out of range (sum of those outcome classes)",
+        nontrivial,
+        true,
+        cov,
+        &[
+            "raw values are transported as u64 limbs via from_digits/to_digits (checked lossless for every lattice value)",
+            "coverage is the boundary lattice and its overflow frontier, not all 2^384 / 2^512 pairs",
+            "mixed operators whose integer operand has no representation in the fixed-point type are only required not to panic",
+        ],
+    )
 }
